@@ -319,6 +319,27 @@ fn layouts(out: &mut Out) {
     out.parts.push(("sweep:layouts".into(), json!({"layout_objects": 30, "calls": n, "panics": panics})));
 }
 
+/// decoder-level histories (two-press family over the real layouts, pumped event words): only panics count here
+fn decoder_histories(out: &mut Out, thorough: bool) {
+    chunk("eventdecoder two-press family + pumped event words (guarded)");
+    let mut tmp = Ctx::new("C08", if thorough { crate::report::Tier::Thorough } else { crate::report::Tier::Quick }, "exploration");
+    let all: Vec<usize> = (0..N_LAYOUTS).collect();
+    let n1 = crate::props::events::decoder_family(&mut tmp, "family", &all, &|_l| ALL_KEYS.to_vec(), if thorough { 2 } else { 1 }, |_l, _k, _m, _mode, outp| match outp {
+        Err(p) if p.starts_with("PANIC") => Some(("panic".to_string(), "returns normally".to_string())),
+        _ => None,
+    });
+    let n2 = crate::props::events::pump_events(&mut tmp, false, false);
+    let mut panics = 0;
+    for (key, v) in tmp.violations.iter() {
+        panics += 1;
+        let (comp, ops) = v.replay.parts.first().cloned().unwrap_or_default();
+        viol(out, &format!("ed/panic/{}", key), &v.text, &comp, ops, "PANIC");
+    }
+    out.evaluations += n1 + n2;
+    out.nontrivial += n1 + n2;
+    out.parts.push(("family+pump:EventDecoder histories (guarded)".into(), json!({"second_presses": n1, "pumped_events": n2, "panicking_histories_recorded": panics})));
+}
+
 fn kb_sweep<S: SetLike>(out: &mut Out, bound: usize) {
     chunk(&format!("keyboard-product {} bound {}", S::NAME, bound));
     let ops = full_ops(2048);
@@ -349,6 +370,7 @@ pub fn worker(tier: &str, result_path: &str) -> i32 {
     kb_words::<ScancodeSet1>(&mut out);
     ev_graph(&mut out);
     layouts(&mut out);
+    decoder_histories(&mut out, thorough);
     let bound = if thorough { 2 } else { 1 };
     kb_sweep::<ScancodeSet2>(&mut out, bound);
     kb_sweep::<ScancodeSet1>(&mut out, bound);
@@ -451,6 +473,9 @@ pub fn c08(ctx: &mut Ctx) -> (u64, String) {
         ctx.machinery("C08 worker left no result file");
     }
     let _ = std::fs::remove_file(&result_path);
+    ctx.sample_run("set1", &["byte:E1", "byte:F0", "byte:F0"]);
+    ctx.sample_run("ps2", &["word:FFFF", "word:8000"]);
+    ctx.sample_run("layout:anyref:jis109", &["map:Oem13:511:Map", "map:Numpad5:0:Ignore"]);
     ctx.sample(json!({"component": "set1", "state": "after E1", "input": "every byte 00..FF", "oracle": "returns (no panic)"}));
     ctx.sample(json!({"component": "ps2", "input": "add_word(0xFFFF)", "oracle": "returns (no panic, no shift overflow)"}));
     ctx.sample(json!({"component": "layout:anyref:jis109", "input": "map_keycode(Oem13, all 9 modifiers set, Map)", "oracle": "returns"}));
